@@ -41,6 +41,7 @@ ASSUMPTIONS = ["language_level=3, UTF-8 source: body characters are Unicode scal
 
 FX_OCT = os.environ.get("C10_FX_OCT", "0")        # flip to "1" after proposed_fixes/C10-octal_escape_above_0o377
 FX_WIDTH = os.environ.get("C10_FX_WIDTH", "0")    # flip to "1" after proposed_fixes/C10-only_empty_bytes_constants
+FX_SURR = os.environ.get("C10_FX_SURR", "0")      # flip to "1" after proposed_fixes/C10-surrogate_str_then_equal_bytes_literal
 FX_NAMED = os.environ.get("C10_FX_NAMED", "0")    # flip to "1" after proposed_fixes/C10-named_escape_with_digit
 
 IMPL = r'''
@@ -580,6 +581,15 @@ def run(ctx):
         out.append(('f"a\\n\\x41\\u20ac{{}}"', ["fstring"]))
         out.append(('rf"a\\n\\x41"', ["fstring"]))
         out.append(('""', ["empty"])); out.append(('b""', ["empty"]))
+        if FX_SURR != "1":
+            # known finding (separate module below): a bytes literal equal to the unicode_escape text of a
+            # str literal with surrogates shares its C string constant and crashes the compiler
+            vals = [py_eval(t) for t, _ in out]
+            clash = set()
+            for v in vals:
+                if v[0] == "str" and any(0xD800 <= c <= 0xDFFF for c in v[1]):
+                    clash.add(bytes("".join(map(chr, v[1])).encode("unicode_escape")))
+            out = [o for o, v in zip(out, vals) if not (v[0] == "bytes" and bytes(v[1]) in clash)]
         return out
 
     mods = []
@@ -591,6 +601,7 @@ def run(ctx):
         mods.append(("c10_m2", module_literals(300, 12, [70000, 70001])))
         mods.append(("c10_small", [('"x\\u00e9"', ["small"]), ('b"\\x00y"', ["small"])]))
     mods.append(("c10_emptyb", [('b""', ["empty-bytes-only"])]))
+    mods.append(("c10_surrclash", [('"\\ud800"', ["surrogate-clash"]), ('b"\\\\ud800"', ["surrogate-clash"])]))
     macros = [None, 0, 1, 2, 3, 90, 5, 91, -1]
 
     def build_mod(name, items):
@@ -649,6 +660,14 @@ def run(ctx):
             elif FX_WIDTH != "1":
                 ctx.corr_break("model says zero-width bit-field", "VALUES = [b\"\"]", "builds", "compile error")
             continue
+        if name == "c10_surrclash":
+            ctx.case("module/surrogate-str-then-equal-bytes", name, sig=name)
+            bad = err or any("cc" in js or "exc" in js for js in info["outs"].values())
+            if bad:
+                detail = err[1] if err else str([js for js in info["outs"].values() if "cc" in js or "exc" in js][0])
+                ctx.fail("surrogate_str_then_equal_bytes_literal_assertion", 'VALUES = ["\\ud800", b"\\\\ud800"]',
+                         detail[-300:], "['\\ud800', b'\\\\ud800']")
+                continue
         if err:
             ctx.corr_break("module %s does not translate" % name, name, err[1], "translates")
             continue
